@@ -145,7 +145,14 @@ impl PatchIndexHeader {
             u32::from_le_bytes([data[pos], data[pos + 1], data[pos + 2], data[pos + 3]]);
         pos += 4;
 
-        // Read block descriptors
+        // Read block descriptors (8 bytes each). The count is not trusted: it
+        // must fit in the remaining input before it sizes the descriptor list.
+        if block_count as usize > (data.len() - pos) / 8 {
+            return Err(PatchIndexError::TruncatedHeader {
+                header_size,
+                actual: data.len(),
+            });
+        }
         let mut blocks = Vec::with_capacity(block_count as usize);
         for _ in 0..block_count {
             if pos + 8 > data.len() {
@@ -299,6 +306,23 @@ mod tests {
         assert_eq!(header.block_offset(0), 43);
         assert_eq!(header.block_offset(1), 50);
         assert_eq!(header.block_offset(2), 150);
+    }
+
+    #[test]
+    fn test_reject_block_count_beyond_input() {
+        let mut data = vec![0u8; 100];
+        // header_size=43, version=1, no extra header, block_count=u32::MAX
+        data[0..4].copy_from_slice(&43u32.to_le_bytes());
+        data[4..8].copy_from_slice(&1u32.to_le_bytes());
+        data[8..12].copy_from_slice(&100u32.to_le_bytes());
+        data[12..14].copy_from_slice(&0u16.to_le_bytes());
+        data[14..18].copy_from_slice(&u32::MAX.to_le_bytes());
+
+        let result = PatchIndexHeader::parse(&data);
+        assert!(matches!(
+            result,
+            Err(PatchIndexError::TruncatedHeader { .. })
+        ));
     }
 
     #[test]
